@@ -340,6 +340,13 @@ def impl(case):
             got = sorted((t.source, t.dest) for t in machine.get_transitions(e))
             if got != sorted(want_rel.get(e, [])):
                 bad.append([sx_str('declared ' + e), [sx_str('%s>%s' % x) for x in got]])
+        # both filters at once, every combination of a declared source with a declared destination
+        for e, pairs in sorted(want_rel.items()):
+            for qs in sorted(set(x[0] for x in pairs)):
+                for qd in sorted(set(x[1] for x in pairs)):
+                    got2 = sorted((t.source, t.dest) for t in machine.get_transitions(e, source=ref(qs), dest=ref(qd)))
+                    if got2 != sorted(x for x in pairs if x == (qs, qd)):
+                        bad.append([sx_str('two filters %s %s>%s' % (e, qs, qd)), [sx_str('%s>%s' % x) for x in got2]])
         for p in paths:
             name = sep.join(p)
             got = set(machine.get_triggers(name))
